@@ -23,10 +23,12 @@ PROPS["C12"] = {
         "default configuration (ARDUINOJSON_USE_DOUBLE=1, USE_LONG_LONG=1, 9/6 decimal places, thresholds 1e7 / 1e-5)",
     ],
     "quick": [
+        dict(_NX12, mode="parse", args=["--families=ac"], arduino=True),  # ARDUINOJSON_ENABLE_PROGMEM=1: tables read through pgm_read_*
         dict(_NX12, mode="parse", args=["--families=acb"]),
         dict(_NX12, mode="print", args=["--families=ifgd"]),
     ],
     "thorough": [
+        dict(_NX12, mode="parse", args=["--families=acb"], arduino=True),
         dict(_NX12, mode="parse", args=["--families=acb"]),
         dict(_NX12, mode="print", args=["--families=ifgd"]),
         dict(_NX12, mode="print", args=["--families=FGD"], flavour="fast"),
